@@ -839,7 +839,7 @@ class Interp:
                 return Fun("extmod", (mod, a))
             if a in base.attrs:
                 if self.on_attr_read:
-                    self.on_attr_read(base, a, node, fr)
+                    self.on_attr_read(base, a, node, fr, True)
                 return base.attrs[a]
             if base.cls is not None:
                 C, m = self.pm.resolve_method(base.cls, a)
@@ -849,7 +849,7 @@ class Interp:
                     if a in c.class_attrs:
                         return Top("class attr")
                 if self.on_attr_read:
-                    self.on_attr_read(base, a, node, fr)
+                    self.on_attr_read(base, a, node, fr, False)
                 if a == "_validate_data":   # pre-1.6 scikit-learn estimator method (only met on old revisions)
                     return Fun("ext", ("sklearn.base", "_validate_data_method"), bound=base)
                 return Top(f"attr {a}")
